@@ -47,7 +47,7 @@ pub enum Wrap {
 }
 pub const WRAPS: [Wrap; 8] = [Wrap::CacheDb, Wrap::CacheDbRefFace, Wrap::State, Wrap::StateBundle, Wrap::WrapRef, Wrap::MutRef, Wrap::Boxed, Wrap::Components];
 
-#[derive(Clone, Debug, Serialize, Deserialize, PartialEq)]
+#[derive(Clone, Debug, Serialize, Deserialize, PartialEq, Eq, Hash)]
 pub enum Op {
     Basic(u8),
     Code(u8),
@@ -192,6 +192,12 @@ pub struct S {
     orig: Plain,
     loaded: [bool; 2],
     cleared: [bool; 2],
+    /// block numbers asked so far: wrappers cache and prune them, so they are part of the state
+    asked: std::collections::BTreeSet<u64>,
+    /// the two independent operation sequences (account queries / commits, block-hash queries): what a
+    /// wrapper caches depends on the order of queries and commits, which the reference data does not show
+    seq_acc: Vec<Op>,
+    seq_bh: Vec<u64>,
     last: String,
 }
 pub struct M {
@@ -225,6 +231,13 @@ fn change(i: u8) -> EvmState {
             let code = Bytecode::new_legacy(vec![0x00u8].into());
             let mut a = Account { info: AccountInfo { balance: U256::from(1), nonce: 1, code_hash: code.hash_slow(), code: Some(code) }, storage: Default::default(), status: AccountStatus::Touched | AccountStatus::Created };
             a.storage.insert(U256::from(2), slot(0, 2));
+            st.insert(X, a);
+        }
+        5 => {
+            // X created with storage {0: 1} only: a second creation must not inherit slots of an earlier one
+            let code = Bytecode::new_legacy(vec![0x5bu8, 0x00].into());
+            let mut a = Account { info: AccountInfo { balance: U256::from(2), nonce: 1, code_hash: code.hash_slow(), code: Some(code) }, storage: Default::default(), status: AccountStatus::Touched | AccountStatus::Created };
+            a.storage.insert(U256::ZERO, slot(0, 1));
             st.insert(X, a);
         }
         _ => {
@@ -269,7 +282,7 @@ impl Model for M {
             Wrap::Boxed => Box::new(Mutable(Box::new(t))),
             Wrap::Components => Box::new(Mutable(DatabaseComponents { state: CompState(t), block_hash: CompBh })),
         };
-        S { face, refp: p.clone(), orig: p, loaded: [false; 2], cleared: [false; 2], last: String::new() }
+        S { face, refp: p.clone(), orig: p, loaded: [false; 2], cleared: [false; 2], asked: Default::default(), seq_acc: vec![], seq_bh: vec![], last: String::new() }
     }
     fn enabled(&self, s: &S) -> Vec<Op> {
         let is_state = matches!(self.wrap, Wrap::State | Wrap::StateBundle);
@@ -290,12 +303,16 @@ impl Model for M {
         for n in [0u64, 1, 255, 256, 257, 258, 511, 512, 513, u64::MAX] {
             v.push(Op::BlockHash(n));
         }
-        for c in 0..5u8 {
+        for c in 0..6u8 {
             v.push(Op::Commit(c));
         }
         v
     }
     fn apply(&self, s: &mut S, op: &Op) -> Result<(), (String, String)> {
+        match op {
+            Op::BlockHash(n) => s.seq_bh.push(*n),
+            o => s.seq_acc.push(o.clone()),
+        }
         let e = |k: String, m: String| Err((k, m));
         // touched empty accounts are only removed by wrappers that implement state clearing
         let eq_info = |got: &Option<AccountInfo>, exp: Option<&PlainAcc>| -> bool {
@@ -363,6 +380,7 @@ impl Model for M {
                 if got != block_hash_of(*n) {
                     return e(format!("block_hash:{:?}", self.wrap), format!("block_hash({n}) = {got}, data says {}", block_hash_of(*n)));
                 }
+                s.asked.insert(*n);
                 s.last = "block_hash".into();
             }
             Op::Commit(c) => {
@@ -395,6 +413,9 @@ impl Model for M {
         c.add(&s.refp);
         c.add(&s.loaded);
         c.add(&s.cleared);
+        c.add(&s.asked);
+        c.add(&s.seq_acc);
+        c.add(&s.seq_bh);
         c.add(&s.last);
     }
     fn outcome(&self, s: &S, _op: &Op) -> String {
@@ -430,7 +451,7 @@ pub fn run(ctx: &Ctx) -> i32 {
     }
     acc.sample(|| json!({"model":"db/State/StorOnly/Absent","history":[{"Basic":0},{"HasStorage":0},{"Commit":2},{"HasStorage":0}]}));
     let meta = Meta {
-        rule: format!("BFS over query/commit histories of depth <= {depth} (basic, code_by_hash, storage of 3 slots, has_storage, block_hash of 10 numbers around the 256-block window, 5 commits incl. self-destruct and re-creation) on 8 wrappers x 6 x 3 underlying account shapes; states de-duplicated by (reference data, loaded flags, last answer)"),
+        rule: format!("BFS over query/commit histories of depth <= {depth} (basic, code_by_hash, storage of 3 slots, has_storage, block_hash of 10 numbers around the 256-block window, 6 commits incl. self-destruct, re-creation and a second creation) on 8 wrappers x 6 x 3 underlying account shapes; states de-duplicated only across interleavings of the account operations with the block-hash queries (two caches that share no field): the key holds both operation sequences"),
         assumptions: vec![
             "State::storage is only called after the account was loaded (documented precondition)".into(),
             "an empty account and an absent account are the same answer (wrappers differ in whether they apply state clearing)".into(),
